@@ -186,6 +186,38 @@ def iteration_source(gen: ast.comprehension):
     return None
 
 
+def foreign_entry_values(tree: Tree, val: ast.AST) -> list[str]:
+    """The renamed mapping is built by a helper of the package in a loop ``for k, v in M.items()`` over the mapping it
+    was given.  Whatever else that loop does, one thing is decidable: a value stored into the result that was READ FROM
+    M UNDER ANOTHER KEY (``M[e]`` with e not the loop's own key, reaching the stored value through the definitions of
+    the loop body) is the value of a different entry - values no longer travel with their symbols.  Returns the
+    descriptions of such stores (positive evidence only; an empty list says nothing about the helper)."""
+    if not (isinstance(val, ast.Call) and getattr(val, "_module", None) is not None):
+        return []
+    helper = tree.funcs.get(tree.callee(val, tree.func_of(val)) or "")
+    if helper is None:
+        return []
+    rd = RD(helper.node)
+    out: list[str] = []
+    for loop in [n for n in walk_function(helper.node, nested=False) if isinstance(n, ast.For)]:
+        it = strip(loop.iter)
+        if not (isinstance(it, ast.Call) and isinstance(it.func, ast.Attribute) and it.func.attr == "items" and not it.args
+                and isinstance(loop.target, ast.Tuple) and len(loop.target.elts) == 2 and all(isinstance(t, ast.Name) for t in loop.target.elts)):
+            continue
+        source = unparse(it.func.value)
+        own_key = loop.target.elts[0].id
+        if not (isinstance(it.func.value, ast.Name) and it.func.value.id in helper.params):
+            continue  # only a mapping that was handed in (the model's field), read by its parameter name
+        for st in [n for n in ast.walk(loop) if isinstance(n, ast.Assign) and len(n.targets) == 1 and isinstance(n.targets[0], ast.Subscript) and unparse(n.targets[0].value) != source]:
+            origins = [st.value, *[d.value for d in rd.closure(rd.uses(st.value)) if isinstance(d.value, ast.AST) and any(d.node is x for x in ast.walk(loop))]]
+            for e in origins:
+                for sub in [x for x in ast.walk(e) if isinstance(x, ast.Subscript) and isinstance(x.ctx, ast.Load) and unparse(x.value) == source]:
+                    if not (isinstance(sub.slice, ast.Name) and sub.slice.id == own_key):
+                        out.append(f"{helper.qual}: the value stored by `{unparse(st)[:50]}` can be `{unparse(sub)[:40]}` - the entry of `{source}` under another key than the one being renamed (`{own_key}`): "
+                                   "the value of a different parameter ends up under this symbol")
+    return sorted(set(out))
+
+
 def field_problems(tree: Tree, sh: Shapes, f: str, is_mapping_field: bool, val: ast.AST) -> tuple[list[str], list[str]]:
     """(what is wrong with the value rename_symbols gives to field f, what could not be interpreted)."""
     val = strip(val)
@@ -213,6 +245,9 @@ def field_problems(tree: Tree, sh: Shapes, f: str, is_mapping_field: bool, val: 
     if comp is None:
         if not depends:
             return ["value does not depend on the symbol mapping" + (f" (self.{f} is passed on unchanged)" if is_self_field(val, f) else "")], []
+        foreign = foreign_entry_values(tree, val)
+        if foreign:
+            return foreign, []
         return [], [f"HelicityModel.{f}: `{unparse(val)[:80]}` is not a dictionary built entry by entry"]
     key, value, gens = comp
     problems: list[str] = []
